@@ -4,6 +4,10 @@ import ZarrsModel.Lemmas.Grid
 C10 — chunk grids partition the array.  `g` ranges over all grids built from a configuration
 (`Grid.new cfg`, every dimension fixed or a list of sizes) with non-zero chunk sizes (`NonZeroU64`).
 A regular grid is `Grid.new (cs.map .fixed)`.
+
+Each theorem with hypotheses is followed by an `example` instantiating all of its hypotheses on a
+concrete 2-D grid (one fixed dimension with an overhanging edge chunk, one varying dimension), to
+document that the statement is not vacuous.
 -/
 namespace Zarrs.C10
 open Zarrs
@@ -16,7 +20,17 @@ theorem partition (cfg : List DimCfg) (arr G : Shape) (hwf : (Grid.new cfg).wf =
     ∃ c sub, (Grid.new cfg).chunkIndices i = some c ∧ inB c G = true ∧
       (Grid.new cfg).subset c = some sub ∧ sub.contains i = true ∧
       ∀ c' sub', inB c' G = true → (Grid.new cfg).subset c' = some sub' → sub'.contains i = true → c' = c := by
-  sorry
+  obtain ⟨c, o, s, e, hci, hcG, ho, hs, -, -, -, hmem, huniq⟩ :=
+    (gridOK_new cfg arr G hwf hG hlen).locate i hi
+  refine ⟨c, ⟨o, s⟩, hci, hcG, Grid.subset_eq_some.mpr ⟨o, s, ho, hs, rfl⟩, hmem, ?_⟩
+  intro c' sub' hc' hsub' hcont
+  obtain ⟨o', s', ho', hs', rfl⟩ := Grid.subset_eq_some.mp hsub'
+  exact huniq c' o' s' hc' ho' hs' hcont
+
+/-- non-vacuity of the hypotheses of `partition` / `queries_consistent` -/
+example : ∃ (cfg : List DimCfg) (arr G : Shape) (i : Idx), (Grid.new cfg).wf = true ∧
+    (Grid.new cfg).gridShape arr = some G ∧ arr.length = cfg.length ∧ inB i arr = true :=
+  ⟨[.fixed 3, .varying [2, 3, 1]], [7, 6], [3, 3], [6, 4], by decide⟩
 
 /-- the queries agree with each other: chunk subset = origin + shape; element-within-chunk = element − origin
 of its chunk and lies below the chunk shape -/
@@ -26,7 +40,9 @@ theorem queries_consistent (cfg : List DimCfg) (arr G : Shape) (hwf : (Grid.new 
     ∃ c o s e, (Grid.new cfg).chunkIndices i = some c ∧ (Grid.new cfg).chunkOrigin c = some o ∧
       (Grid.new cfg).chunkShape c = some s ∧ (Grid.new cfg).subset c = some ⟨o, s⟩ ∧
       (Grid.new cfg).chunkElementIndices i = some e ∧ addIdx e o = i ∧ inB e s = true := by
-  sorry
+  obtain ⟨c, o, s, e, hci, -, ho, hs, hel, hadd, hes, -, -⟩ :=
+    (gridOK_new cfg arr G hwf hG hlen).locate i hi
+  exact ⟨c, o, s, e, hci, ho, hs, Grid.subset_eq_some.mpr ⟨o, s, ho, hs, rfl⟩, hel, hadd, hes⟩
 
 /-- for an in-bounds non-empty region the reported box of chunks is exactly the set of chunks (below the
 grid shape) whose extent meets the region -/
@@ -36,32 +52,84 @@ theorem chunks_in_subset_exact (cfg : List DimCfg) (arr G : Shape) (hwf : (Grid.
     ∃ box, (Grid.new cfg).chunksInArraySubset r arr = some box ∧
       ∀ c, box.contains c = true ↔
         (inB c G = true ∧ ∃ sub i, (Grid.new cfg).subset c = some sub ∧ sub.contains i = true ∧ r.contains i = true) := by
-  sorry
+  obtain ⟨st, sh⟩ := r
+  simp only [Subset.wf, beq_iff_eq] at hr
+  simp only [Subset.inboundsShape, Subset.rank, Subset.endExc, Bool.and_eq_true, beq_iff_eq] at hb
+  simp only [Subset.isEmpty] at hne
+  have hglen : (Grid.new cfg).length = cfg.length := by simp [Grid.new]
+  obtain ⟨cs, ce, hcs, hce, hiff⟩ := (gridOK_new cfg arr G hwf hG hlen).chunksIn st sh
+    (by omega) (by omega) hb.2 hne
+  refine ⟨⟨cs, (Subset.zipSub ce cs).map (· + 1)⟩, ?_, ?_⟩
+  · simp only [Grid.chunksInArraySubset, Subset.endInc, Subset.isEmpty, hne, Bool.false_eq_true,
+      if_false, hce, hcs]
+  · intro c
+    simp only [Subset.contains]
+    rw [hiff c]
+    constructor
+    · rintro ⟨hc, o, s, i, ho, hs, h1, h2⟩
+      exact ⟨hc, ⟨o, s⟩, i, Grid.subset_eq_some.mpr ⟨o, s, ho, hs, rfl⟩, h1, h2⟩
+    · rintro ⟨hc, sub, i, hsub, h1, h2⟩
+      obtain ⟨o, s, ho, hs, rfl⟩ := Grid.subset_eq_some.mp hsub
+      exact ⟨hc, o, s, i, ho, hs, h1, h2⟩
+
+/-- non-vacuity of the hypotheses of `chunks_in_subset_exact` (a region straddling chunk borders) -/
+example : ∃ (cfg : List DimCfg) (arr G : Shape) (r : Subset), (Grid.new cfg).wf = true ∧
+    (Grid.new cfg).gridShape arr = some G ∧ arr.length = cfg.length ∧ r.wf = true ∧
+    r.inboundsShape arr = true ∧ r.isEmpty = false ∧
+    (Grid.new cfg).chunksInArraySubset r arr = some ⟨[0, 0], [3, 2]⟩ :=
+  ⟨[.fixed 3, .varying [2, 3, 1]], [7, 6], [3, 3], ⟨[2, 1], [5, 3]⟩, by decide⟩
 
 /-- the grid shape is the least number of chunks covering the array: for a fixed dimension
 `(G-1)*s < a ≤ G*s` (when `a > 0`), for a varying dimension the sizes sum exactly to the extent -/
 theorem grid_shape_least_fixed (s a : Nat) (hs : 0 < s) (ha : 0 < a) :
-    ∃ G, (Dim.fixed s).gridShape a = some G ∧ (G - 1) * s < a ∧ a ≤ G * s := by
-  sorry
+    ∃ G, (Dim.fixed s).gridShape a = some G ∧ (G - 1) * s < a ∧ a ≤ G * s :=
+  ⟨(a + s - 1) / s, rfl, ceil_pred_lt s a hs ha, ceil_le s a hs⟩
+
+example : ∃ s a : Nat, 0 < s ∧ 0 < a ∧ (Dim.fixed s).gridShape a = some 3 := ⟨3, 7, by decide⟩
 
 theorem grid_shape_exact_varying (sizes : List Nat) (a : Nat) :
     (Dim.new (.varying sizes)).gridShape a = (if a = sizes.sum then some sizes.length else none) := by
-  sorry
+  simp [Dim.new, Dim.gridShape, lastEnd_scanOffsets_zero, scanOffsets_length]
 
 /-- outside the grid a rectangular dimension answers `None` (never data from elsewhere) -/
 theorem out_of_grid_none (sizes : List Nat) (c i : Nat) :
     (sizes.length ≤ c → (Dim.new (.varying sizes)).origin c = none ∧ (Dim.new (.varying sizes)).chunkShape c = none) ∧
     (sizes.sum ≤ i → (Dim.new (.varying sizes)).chunkIndex i = none ∧ (Dim.new (.varying sizes)).elemIndex i = none) := by
-  sorry
+  constructor
+  · intro h
+    have : (scanOffsets 0 sizes)[c]? = none :=
+      List.getElem?_eq_none (by rw [scanOffsets_length]; exact h)
+    simp [Dim.new, Dim.origin, Dim.chunkShape, this]
+  · intro h
+    have hci : (Dim.varying (scanOffsets 0 sizes)).chunkIndex i = none := by
+      simp only [Dim.chunkIndex, lastEnd_scanOffsets_zero]
+      rw [if_neg (by omega)]
+    refine ⟨hci, ?_⟩
+    simp only [Dim.new, Dim.elemIndex, hci]
+
+example : ∃ (sizes : List Nat) (c i : Nat), sizes.length ≤ c ∧ sizes.sum ≤ i ∧ sizes ≠ [] :=
+  ⟨[2, 3, 1], 3, 6, by decide⟩
 
 /-- a regular dimension keeps answering consistently beyond the array -/
 theorem regular_beyond (s c : Nat) (hs : 0 < s) :
     (Dim.fixed s).origin c = some (c * s) ∧ (Dim.fixed s).chunkIndex (c * s) = some c ∧
     (Dim.fixed s).chunkShape c = some s := by
-  sorry
+  refine ⟨rfl, ?_, rfl⟩
+  simp only [Dim.chunkIndex, Nat.mul_div_cancel c hs]
+
+example : ∃ s c : Nat, 0 < s ∧ (Dim.fixed s).gridShape 7 = some 3 ∧ 3 ≤ c := ⟨3, 10, by decide⟩
 
 /-- a grid re-created from its own metadata is the same grid -/
 theorem config_roundtrip (cfg : List DimCfg) : (Grid.new cfg).toCfg = cfg ∧ Grid.new ((Grid.new cfg).toCfg) = Grid.new cfg := by
-  sorry
+  have h : (Grid.new cfg).toCfg = cfg := by
+    induction cfg with
+    | nil => rfl
+    | cons c cfg ih =>
+      simp only [Grid.new, Grid.toCfg, List.map_cons, List.cons.injEq] at ih ⊢
+      refine ⟨?_, ih⟩
+      cases c with
+      | fixed s => rfl
+      | varying sizes => simp [Dim.new, Dim.toCfg, scanOffsets_map_snd]
+  exact ⟨h, by rw [h]⟩
 
 end Zarrs.C10
